@@ -45,7 +45,7 @@ package resources
 // request touched is remembered for OnRequestDrop.
 //@ pure QuotaAdmI.GetQuota
 //@ func (*ResourceManagement).GetQuota
-//@   prop C01, C02, C06
+//@   prop C01, C02
 //@   requires rmOK(rm) && rm.quotas != nil
 //@   modifies smapof(regCtx(rm).ctx), now
 //@   ensures[the-quota-of-this-id] result1 == nil ==> in(quotaID, rm.quotas.data) && result0 == rm.quotas.data[quotaID].GetQuota(quotaID)
